@@ -24,12 +24,13 @@ var vErrTimeout = context.DeadlineExceeded
 // the deadline), garbage, a temporary completion code or a valid final reply.
 type vTimedTransport struct {
 	vFakeTransport
-	deadline    int64 // the caller's context deadline (the instant the call must not outlive)
-	delivered   bool  // a valid final reply was handed to the library
-	buildFinal  func() []byte
-	buildBusy   func() []byte
-	sends       int
-	record      bool
+	deadline   int64 // the caller's context deadline (the instant the call must not outlive)
+	delivered  bool  // a valid final reply was handed to the library
+	buildFinal func() []byte
+	buildBusy  func() []byte
+	buildStale func() []byte // optional: a valid reply that belongs to another command (duplicate / delayed)
+	sends      int
+	record     bool
 }
 
 func (t *vTimedTransport) Send(ctx context.Context, b []byte) ([]byte, error) {
@@ -51,7 +52,14 @@ func (t *vTimedTransport) Send(ctx context.Context, b []byte) ([]byte, error) {
 	if dl <= now {
 		return nil, vErrTimeout // the socket deadline has already passed
 	}
-	switch vChoice(4) {
+	n := 4
+	if t.buildStale != nil {
+		n = 5
+	}
+	switch vChoice(n) {
+	case 4: // a duplicated or delayed reply to some other command, after a delay
+		vSleepUntilNs(t.arrival(now, dl))
+		return t.buildStale(), nil
 	case 0: // black hole: the read times out at the deadline
 		vSleepUntilNs(dl)
 		return nil, vErrTimeout
@@ -94,6 +102,9 @@ func VerifC13_Sessionless() {
 	tt.buildBusy = func() []byte {
 		return refSessionless(0x00, refBuildMsg(0x81, 0x07, 0, 0x20, 1, 0, 0x01, []byte{0xC0}))
 	}
+	tt.buildStale = func() []byte {
+		return refSessionless(0x00, refBuildMsg(0x81, 0x07, 0, 0x20, 1, 0, 0x37, []byte{0x00}))
+	}
 	vSetRetryBound(6)
 	vClockStart()
 	ctx, cancel := context.WithTimeout(context.Background(), time.Duration(d))
@@ -125,17 +136,29 @@ func VerifC13_Session() {
 	d := []int64{0, 40 * vMs}[vChoice(2)]
 	tt.deadline = d
 	cmd := &vSynthCmd{op: ipmi.OperationGetDeviceIDReq}
-	reply := func(cc byte) []byte {
-		m := refBuildMsg(0x81, 0x07, 0, 0x20, 1, 0, 0x01, []byte{cc})
+	// the blocking call is either a command or the session's Close (Close Session, 0x3C)
+	useClose := vBool()
+	cmdNo := byte(0x01)
+	if useClose {
+		cmdNo = 0x3C
+	}
+	reply := func(no, cc byte) []byte {
+		m := refBuildMsg(0x81, 0x07, 0, 0x20, 1, 0, no, []byte{cc})
 		return refSessionPacket(vs.sess.LocalID, 1, integ, vs.k1, vs.k2, vBytes(16), m)
 	}
-	tt.buildFinal = func() []byte { return reply(0x00) }
-	tt.buildBusy = func() []byte { return reply(0xC3) }
+	tt.buildFinal = func() []byte { return reply(cmdNo, 0x00) }
+	tt.buildBusy = func() []byte { return reply(cmdNo, 0xC3) }
+	tt.buildStale = func() []byte { return reply(0x37, 0x00) }
 	vSetRetryBound(6)
 	vClockStart()
 	ctx, cancel := context.WithTimeout(context.Background(), time.Duration(d))
 	defer cancel()
-	_, err := vs.sess.SendCommand(ctx, cmd)
+	var err error
+	if useClose {
+		err = vs.sess.Close(ctx)
+	} else {
+		_, err = vs.sess.SendCommand(ctx, cmd)
+	}
 	vAssert(vNowNs() <= d+vAllowance, "c13-call-returns-by-its-context's-deadline")
 	if err == nil {
 		vAssert(tt.delivered, "c13-success-only-with-a-valid-response")
@@ -145,6 +168,52 @@ func VerifC13_Session() {
 	}
 	if d == 0 {
 		vAssert(err != nil, "c13-expired-context-gives-an-error")
+	}
+	vReached("end")
+}
+
+// C13 (history): a command on a session - with any outcome, in particular a lost reply -
+// followed by Close under a fresh 40 ms deadline: Close too returns by its deadline and
+// reports success only if a valid response to it arrived, whatever happened before.
+func VerifC13_CommandThenClose() {
+	tt := &vTimedTransport{}
+	auth, integ := vSuite()
+	vs := vNewSessionOn(tt, &tt.vFakeTransport, auth, integ)
+	vAssume(vs.sess.AuthenticatedSequenceNumbers.Inbound < 0xffffff00)
+	vs.sess.timeout = time.Duration(vAttempt)
+	vs.sess.backoff = backoff.NewConstantBackOff(time.Duration(vBackoff))
+	cmdNo := byte(0x01)
+	reply := func(no, cc byte) []byte {
+		m := refBuildMsg(0x81, 0x07, 0, 0x20, 1, 0, no, []byte{cc})
+		return refSessionPacket(vs.sess.LocalID, 1, integ, vs.k1, vs.k2, vBytes(16), m)
+	}
+	tt.buildFinal = func() []byte { return reply(cmdNo, 0x00) }
+	tt.buildBusy = func() []byte { return reply(cmdNo, 0xC3) }
+	vSetRetryBound(4)
+	vClockStart()
+	tt.deadline = 40 * vMs
+	ctx, cancel := context.WithTimeout(context.Background(), time.Duration(40*vMs))
+	_, err := vs.sess.SendCommand(ctx, &vSynthCmd{op: ipmi.OperationGetDeviceIDReq})
+	cancel()
+	vAssert(vNowNs() <= tt.deadline+vAllowance, "c13-call-returns-by-its-context's-deadline")
+	if err == nil {
+		vAssert(tt.delivered, "c13-success-only-with-a-valid-response")
+	}
+	// Close
+	cmdNo = 0x3C
+	tt.delivered = false
+	start := vNowNs()
+	tt.deadline = start + 40*vMs
+	ctx2, cancel2 := context.WithTimeout(context.Background(), time.Duration(40*vMs))
+	defer cancel2()
+	sentBefore := tt.sends
+	err = vs.sess.Close(ctx2)
+	vAssert(vNowNs() <= tt.deadline+vAllowance, "c13-close-returns-by-its-context's-deadline")
+	if err == nil {
+		vAssert(tt.delivered && tt.sends > sentBefore, "c13-close-succeeds-only-with-a-valid-response")
+		vReached("?close-ok")
+	} else {
+		vReached("?close-error")
 	}
 	vReached("end")
 }
